@@ -490,12 +490,12 @@ func (cs *supply) Reserve(g Grant, o *libmem.Offer) (map[string]libmem.NodeMask,
 		cs.sharable = cs.sharable.Difference(exclusive)
 		cs.grantedShared += sharedPortion
 	} else if g.CPUType() == cpuReserved {
-		sharedPortion := 1000*g.ExclusiveCPUs().Size() + g.SharedPortion()
-		if sharedPortion > 0 && cs.AllocatableReservedCPU() < sharedPortion {
+		reservedPortion := 1000*g.ExclusiveCPUs().Size() + g.ReservedPortion()
+		if reservedPortion > 0 && cs.AllocatableReservedCPU() < reservedPortion {
 			return nil, policyError("can't reserve %d reserved CPUs of %s from %s",
-				sharedPortion, g.String(), cs.DumpAllocatable())
+				reservedPortion, g.String(), cs.DumpAllocatable())
 		}
-		cs.grantedReserved += sharedPortion
+		cs.grantedReserved += reservedPortion
 	}
 
 	g.AccountAllocateCPU()
